@@ -89,6 +89,8 @@ class Obligation:
         self.func, self.line, self.hints, self.path, self.note = func, line, hints, path, note
 
 
+DROPPED_CALLS = {'localcider/backend/backendtools.py:' + f for f in
+                 ('warning_message', 'status_message', 'running_dotdotdot', 'warn_thisWillBeRemoved', 'warn_notReadyYet')}
 MUTATORS = {'append', 'pop', 'extend', 'insert', 'remove', 'sort', 'reverse', 'add', 'discard', 'update', 'clear'}
 
 
@@ -456,6 +458,9 @@ class Interp:
             raise Raised(self.mk_exc('AttributeError'))
         if isinstance(base, Choice):
             return ops.map_choice(base, lambda b: self.getattr(b, attr, fr))
+        if attr == '__class__' and not isinstance(base, (Obj, Opaque, ExcVal)) and (is_symbolic(base) or isinstance(base, (str, list, dict, tuple, int, Fraction)) or base is None):
+            from .models import pyclass_of
+            return pyclass_of(base)
         if isinstance(base, (Sym, SChar, SSeq, SSet, str, list, dict, set, tuple, frozenset, RangeVal)):
             if isinstance(base, SSeq) and attr == 'size':
                 return ops.length(base)
@@ -660,6 +665,10 @@ class Interp:
             args, kwargs = self.eval_args(node, fr)
             return self.call_method(base, attr, args, kwargs, fr, node.func.value, node)
         fv = self.eval(node.func, fr)
+        fi0 = self.sb.info_of(fv) if callable(fv) and not isinstance(fv, (BoundSpecial, type)) else None
+        if fi0 is not None and fi0.key in DROPPED_CALLS:
+            self.dropped.add(fi0.qualname + '()')       # message printers: no-ops with empty frame, arguments not evaluated
+            return None
         args, kwargs = self.eval_args(node, fr)
         return self.call_value(fv, args, kwargs, fr, node)
 
